@@ -185,6 +185,7 @@ type Run struct {
 	// store-level runs: phase currently executing, and whether an injected disk fault fired in the second one
 	curPhase      int
 	reqReuse      map[string]*reuseSlot
+	stallSID map[int]bool // responses whose body stalls for ever: their reader only closes them
 	exchIdx       map[exchKey]*Exch // (client name, operation index) -> its latest exchange
 	judging       bool
 	lineageEnd    map[*UpCall]uint64 // memo of lastSeqOfLineage (history is immutable once judging starts)
@@ -1246,7 +1247,15 @@ func (r *Run) exchange(g *kit.Gor, ci, oi int, name string, op *Op) {
 	}
 	e.SeqRet = r.Sim.Event(g, "ret", fmt.Sprintf("status=%d err=%q panic=%v st=%s seq=%s", e.Status, e.Err, e.Panic != "", hget(e.Header, "X-Httpcache-Status"), hget(e.Header, "X-Sim-Seq")))
 	if resp != nil && resp.Body != nil {
-		switch op.Read {
+		rd := op.Read
+		if sid, _ := strconv.Atoi(strings.TrimSpace(strings.SplitN(hget(resp.Header, "X-Sim-Seq"), ",", 2)[0])); sid > 0 {
+			r.mu.Lock()
+			if r.stallSID[sid] {
+				rd = "close" // (a client of a body that never ends gives up on it)
+			}
+			r.mu.Unlock()
+		}
+		switch rd {
 		case "close":
 			resp.Body.Close()
 		case "partial":
